@@ -163,8 +163,10 @@ func (p *parser) parseBinaryExpr(left Node) Node {
 	if binaryExp.Right == nil {
 		return nil // previous error
 	}
-	if expType == EMPTY_ARRAY && binaryExp.Op == OP_PLUS {
-		binaryExp.T = binaryExp.Right.Type() // array concatenation e.g. [] + [1 2]
+	if binaryExp.Op == OP_PLUS && expType.hasEmpty() && !binaryExp.Right.Type().hasEmpty() {
+		// array concatenation with an untyped empty literal on the left, at
+		// any level, has the type of the right operand: [] + [1 2], [[]] + [arr]
+		binaryExp.T = binaryExp.Right.Type()
 	}
 	if expType.Name == ARRAY && binaryExp.Right.Type().hasFixed() {
 		binaryExp.T = fixedType(binaryExp.T) // not a constant, e.g. [1] + arr
